@@ -385,8 +385,12 @@ def bits_to_target(bits):
     exponent = bits[-1]
     # the first three bytes are the coefficient in little endian
     coefficient = little_endian_to_int(bits[:-1])
+    # bit 0x800000 of the coefficient is the sign bit of the compact format, not magnitude
+    coefficient &= 0x7FFFFF
     # the formula is:
-    # coefficient * 256**(exponent-3)
+    # coefficient * 256**(exponent-3), in integer arithmetic for exponent < 3
+    if exponent < 3:
+        return coefficient >> (8 * (3 - exponent))
     return coefficient * 256 ** (exponent - 3)
 
 
